@@ -225,6 +225,12 @@ fn main() {
     println(last(5), last(1));
 }
 `},
+		{"small:multiplication-by-zero-and-one", `fn scale(a: int, b: int) -> int { a * b }
+fn main() {
+    for i in 0..3 { println(scale(3, i), scale(i, 3), i * 0, 5 * i); }
+    println(7 * 0, 0 * 7, 7 * 1, 0 * 0);
+}
+`},
 		{"small:comparisons-in-every-position", `fn le(a: int, b: int) -> bool { a * 2 <= b * 3 }
 fn main() {
     let a = 2;
